@@ -552,7 +552,7 @@ func runC08(c *mon.Ctx) {
 	})
 
 	// --- lookup lists beyond 64 KiB (extension subtables) -------------------
-	c.Stratum("ext", c.N(48, 8000), func(k *mon.Case) {
+	c.Stratum("ext", c.N(56, 2400), func(k *mon.Case) {
 		r := k.Rng
 		tt := otl.GSUB + k.Index%2
 		mode := (k.Index / 2) % 7
@@ -687,6 +687,31 @@ func runC08(c *mon.Ctx) {
 		k.Sample(fmt.Sprintf("%s %s: %d lookups -> %d bytes, %d extension records", c08typeName(tt), scen, len(ll), len(out.enc), nExt))
 	})
 
+	// --- lookup lists beyond 64 KiB made of a single subtable type ------------
+	c.Stratum("ext-uniform", c.N(2*len(combos), 40*len(combos)), func(k *mon.Case) {
+		r := k.Rng
+		cb := combos[k.Index%len(combos)]
+		name := otl.Name(cb.tt, cb.lt, cb.f)
+		var ll gtab.LookupList
+		total, big := 2, 0
+		for len(ll) < 3 || total-big < 0x10400 {
+			l := &gtab.LookupTable{Meta: &gtab.LookupMetaInfo{LookupType: uint16(cb.lt)}}
+			l.Meta.LookupFlags, l.Meta.MarkFilteringSet = otl.Flags(r, otl.Opts{})
+			for i, n := 0, 1+r.IntN(3); i < n; i++ {
+				l.Subtables = append(l.Subtables, otl.Subtable(r, cb.tt, cb.lt, cb.f, otl.Opts{MaxGID: 0xFFFF, Size: otl.Large, NumLookups: 3}))
+			}
+			ll = append(ll, l)
+			n := c08lookupSize(l)
+			total += 2 + n
+			big = max(big, n)
+		}
+		info := &gtab.Info{ScriptList: otl.ScriptList(r, otl.DefaultTags, 2), FeatureList: otl.FeatureList(r, 2, len(ll)), LookupList: ll}
+		out, ok := c08judge(k, "ext-uniform-"+name, cb.tt, info)
+		if ok && out.rep.Classes["ext"] > 0 {
+			k.Class("ext-uniform:" + name)
+		}
+	})
+
 	// --- sweep around the 16-bit limits -------------------------------------
 	c.Stratum("limit", c.N(3*17*2*2, 3*17*2*40), func(k *mon.Case) {
 		r := k.Rng
@@ -761,9 +786,9 @@ func runC08(c *mon.Ctx) {
 	})
 
 	// --- coverage tables ----------------------------------------------------
-	c.Stratum("coverage", c.N(2400, 200000), func(k *mon.Case) {
+	c.Stratum("coverage", c.N(2400, 120000), func(k *mon.Case) {
 		r := k.Rng
-		gids := c08coverageGlyphs(r, k.Index)
+		gids := c08coverageGlyphs(r, k.Index+k.Index/16) // (shards take every 16th index: keep the shapes mixed in each)
 		tab := otl.TableOf(gids)
 		want := c08glyphs16(gids)
 		k.Step(fmt.Sprintf("coverage %d glyphs", len(gids)))
@@ -820,9 +845,9 @@ func runC08(c *mon.Ctx) {
 	})
 
 	// --- class definition tables --------------------------------------------
-	c.Stratum("classdef", c.N(2400, 200000), func(k *mon.Case) {
+	c.Stratum("classdef", c.N(2400, 120000), func(k *mon.Case) {
 		r := k.Rng
-		cd := c08classDef(r, k.Index)
+		cd := c08classDef(r, k.Index+k.Index/16)
 		f1, f2 := otlwalk.ClassDefSizes(c08cd16(cd))
 		k.Step(fmt.Sprintf("classdef %d glyphs", len(cd)))
 		if f1 < 0 && f2 < 0 {
@@ -979,6 +1004,12 @@ func runC08(c *mon.Ctx) {
 			}
 		}
 		collect(scriptTags[k.Index], langTags)
+		if len(want) == 0 {
+			// not a single language system of this script survives gtab.Read
+			k.Eval()
+			k.Fail("mismatch", "c08:tags:script-not-representable", "script tag %q is in the library's script table, but gtab.Read drops every language system record of a hand-written script list that uses it (there is no language.Tag for it)", scriptTags[k.Index])
+			return
+		}
 		other := scriptTags[r.IntN(len(scriptTags))]
 		if other != scriptTags[k.Index] {
 			var some []string
@@ -1046,7 +1077,7 @@ func runC08(c *mon.Ctx) {
 			}
 			room -= c
 		}
-		withLookups := k.Index%2 == 0
+		withLookups := (k.Index/10)%2 == 0
 		info := &gtab.Info{ScriptList: gtab.ScriptListInfo{}, FeatureList: fl, LookupList: gtab.LookupList{}}
 		if !withLookups {
 			// no lookup list: the feature list may end beyond 64 KiB
@@ -1090,7 +1121,7 @@ func runC08(c *mon.Ctx) {
 		"classdef:format1", "classdef:format2", "classdef:tie", "classdef:has-gid-0", "classdef:has-gid-ffff",
 		"tags:script-complete", "gdef:111", "gdef:000"}
 	for _, cb := range combos {
-		req = append(req, "sub:"+otl.Name(cb.tt, cb.lt, cb.f))
+		req = append(req, "sub:"+otl.Name(cb.tt, cb.lt, cb.f), "ext-uniform:"+otl.Name(cb.tt, cb.lt, cb.f))
 	}
 	c.Require(req...)
 }
